@@ -1,5 +1,5 @@
-_ALLOW = "null_distinct,null_multi_key,null_lit,group_noagg,key_expr,agg_expr,cast,concat,inner_limit,mixed_width,not_in,join_residual,multi_rel_key"
-_OPTS = {"prop": "C01", "strata": "all", "neutral": "1", "joins": "1", "allow": _ALLOW}
+_ALLOW = "null_distinct,null_multi_key,null_lit,group_noagg,key_expr,agg_expr,cast,concat,inner_limit,mixed_width,not_in,not_exists,nonequi_corr,corr,corr_free,scalar_select,join_residual,multi_rel_key"
+_OPTS = {"prop": "C01", "strata": "all", "neutral": "1", "allow": _ALLOW}
 ENTRY = {
     "level": "proof",
     "families": [fam("SQL", 400, 20000, opts={"quick": _OPTS, "thorough": dict(_OPTS, sizes="tiny,small,small,mid")})],
@@ -13,12 +13,12 @@ ENTRY = {
     "trusted_base": COMMON_TB + ["SQL reference semantics IQE.Spec (ours, ~700 lines); SQL text <-> resolved plan correspondence is the generator's (harness/src/sqlgen/ast.rs)",
                                  "no engine model of the whole pipeline yet: K is 'engine rows acceptable to the reference', i.e. K = O for this property"],
     "assumptions": [
-        "NOT COVERED by the default stream (generator features off; each is a known defect area owned by another property and reported to the coordinator): "
-        "correlated subqueries beyond one equality (corr, corr_free, nonequi_corr: C23/A.20), NOT IN / NOT EXISTS (C23/A.14), scalar subquery in the SELECT list (A.26), "
-        "semi/anti joins with a residual ON condition (join_residual: C22/A.20), a later join whose keys come from two different earlier FROM items (multi_rel_key: C22), "
-        "INTEGER vs BIGINT join/IN keys and integer expressions of unknown width as keys (mixed_width: panics), two derived relations with equal column names in one FROM "
-        "(dup_derived_names: A.27), group keys / DISTINCT columns / accumulator inputs whose NULLs are computed (outer join, NULL literal, NULLIF; computed_null_key: C21/A.24-A.25 "
-        "cannot be neutralised at the data level), MIN/MAX over VARCHAR (str_minmax: C21), AVG / aggregate DISTINCT (avg, agg_distinct: C21), BOOLEAN and DOUBLE group keys, window functions",
+        "NOT COVERED by the default stream (generator features off; named defect areas owned by other properties): two derived relations with equal column names in one FROM "
+        "(dup_derived_names: A.27), group keys / DISTINCT columns / accumulator inputs whose NULLs are computed (outer join, NULL literal, NULLIF; computed_null_key: C21/A.24-A.25 - "
+        "the data neutraliser cannot remove them), MIN/MAX over VARCHAR (str_minmax, null_str_minmax: C21), AVG and aggregate DISTINCT (avg, agg_distinct: C21), BOOLEAN and DOUBLE group keys "
+        "(refused by the engine / engine-defined), window functions (reference semantics pending C26)",
+        "signature-only findings (C01-F23c correlated subquery, C01-F22b two or more joins, C01-F27b grouping sets over a join) mask a NEW defect inside those statement classes; "
+        "they are tried last, after the exact set-operation model and the nonull / noopt neutralisers",
         "integer division / modulo, overflow, NaN / -0.0 / +-inf ordering are engine-defined: not generated (magnitudes are tracked) or skipped",
         "LIMIT / OFFSET below the top level only over an ORDER BY on all output columns",
     ],
